@@ -418,7 +418,7 @@ func checkExplainNested(acts []builder.VerifC19NestedItem) (text, obs, fail, sig
 func hasUnmodelledKeyword(text string) bool {
 	for _, t := range builder.VerifC19Lex(text) {
 		switch t.Val {
-		case "GPOS2", "GPOS3", "GPOS4":
+		case "GPOS2":
 			return true
 		}
 	}
@@ -642,9 +642,15 @@ func Gen(run *vlib.Run, seed uint64, tier string) {
 			addExplain(fs, "GSUB", ll, labels...)
 		} else {
 			var ll gtab.LookupList
-			labels := []string{"font:" + kind, "GPOS1"}
+			labels := []string{"font:" + kind, "GPOS1/3/4"}
 			for k := r.Range(1, 3); k > 0; k-- {
 				l := genGpos1Lookup(r, n)
+				switch r.Intn(5) {
+				case 0, 1:
+					l = genGpos3Lookup(r, n)
+				case 2:
+					l = genGpos4Lookup(r, n)
+				}
 				ll = append(ll, l)
 				labels = append(labels, fmt.Sprintf("flags:%d", l.Meta.LookupFlags), fmt.Sprintf("subtables:%d", len(l.Subtables)))
 			}
